@@ -178,6 +178,20 @@ def gen(rng, tier):
                 cases.append(Case("tx.parse " + hx(replace_field(j, "accessList", json.dumps([[a, [tok]]]))), tags=("perturbed-string", "storage-key")))
             for tok in perturb(a, "0x"):
                 cases.append(Case("tx.parse " + hx(replace_field(j, "accessList", json.dumps([[tok, [k32]]]))), tags=("perturbed-string", "al-address")))
+    # one character of a valid hex / decimal string replaced by a sign / separator / point / x / NUL / blank (same length)
+    from vlib.core import substitute
+    jS, _eS = txgen.rand_tx(rng, kind="eip1559", al_shape=[1])
+    aS = txgen.rand_addr(rng)
+    kS = "0x" + "%064x" % rng.getrandbits(256)
+    for tok in substitute("0x1f4a", 2) + substitute("123456"):
+        cases.append(Case("tx.parse " + hx(replace_field(jS, rng.choice(NUMERIC["eip1559"]), json.dumps(tok))), tags=("substituted", "number-string")))
+    for tok in substitute(aS, 2)[::5]:
+        cases.append(Case("tx.parse " + hx(replace_field(jS, "to", json.dumps(tok))), tags=("substituted", "to")))
+        cases.append(Case("tx.parse " + hx(replace_field(jS, "accessList", json.dumps([[tok, [kS]]]))), tags=("substituted", "al-address")))
+    for tok in substitute(kS, 2)[::9]:
+        cases.append(Case("tx.parse " + hx(replace_field(jS, "accessList", json.dumps([[aS, [tok]]]))), tags=("substituted", "storage-key")))
+    for tok in substitute("0xdeadbeef", 2):
+        cases.append(Case("tx.parse " + hx(replace_field(jS, "data", json.dumps(tok))), tags=("substituted", "data")))
     # which kind a document is, and which field sets are refused: every subset of the pricing / access-list fields
     for j, sub, wc in txgen.field_mixes(rng):
         cases.append(Case("tx.parse " + hx(j), tags=("field-mix", "fields:" + sub)))
